@@ -9,6 +9,7 @@ where the hash scalar is left unreduced).  The correspondence run instantiates `
 Lean implementation of the curve and of SHA-512 and compares verdicts with the real package.
 -/
 import Iota.Proofs.Ed
+import Iota.Proofs.Ed.Witness2
 
 namespace Iota.Props.C01
 open Iota.Proofs.Ed
@@ -80,5 +81,23 @@ theorem torsion_verdicts (h : Lawful lib) (pk pk' msg sig sig' : Bytes) (hpk : p
 
 /-! ### non-vacuity: the hypotheses are satisfiable — `Iota.Proofs.Ed.Witness` builds a lawful library -/
 example : ∃ (G : Type) (_ : AddCommGroup G) (lib : EdLib G), Lawful lib ∧ Cofactor lib := lawful_witness
+
+/-- … and the torsion theorems are witnessed with T ≠ 0: a lawful cofactor-8 library (over ℤ/8L) with an 8-torsion
+point T ≠ 0 on which, for every honest key and message, two different key encodings (of A and A + T) with the same hash
+scalar both make `verify` accept while the cofactorless check accepts only the first — the ZIP-215 set is strictly
+larger than crypto/ed25519's — and likewise for R versus R + T. -/
+theorem torsion_nonvacuous :
+    ∃ (G : Type) (_ : AddCommGroup G) (lib : EdLib G) (T : G),
+      Lawful lib ∧ Cofactor lib ∧ (8 : ℕ) • T = 0 ∧ T ≠ 0 ∧
+      (∃ (S k : ℕ) (A R : G), Zip215Eq lib S k A R ∧ Zip215Eq lib S k (A + T) R ∧
+        S • lib.base = R + k • A ∧ S • lib.base ≠ R + k • (A + T)) ∧
+      (∀ (x : ℕ) (msg : Bytes), ∃ (pk pk' sig : Bytes),
+        pk.length = 32 ∧ pk'.length = 32 ∧ pk ≠ pk' ∧
+        lib.decode pk = some (x • lib.base) ∧ lib.decode pk' = some (x • lib.base + T) ∧
+        hramScalar lib pk msg sig = hramScalar lib pk' msg sig ∧
+        Iota.Ed25519.verify lib pk msg sig = some true ∧ Iota.Ed25519.verify lib pk' msg sig = some true ∧
+        stdVerify lib pk msg sig = true ∧ stdVerify lib pk' msg sig = false) :=
+  let ⟨G, i, lib, T, h1, h2, h3, h4, h5, h6, _⟩ := lawful_witness_torsion
+  ⟨G, i, lib, T, h1, h2, h3, h4, h5, h6⟩
 
 end Iota.Props.C01
